@@ -77,6 +77,8 @@ class Filenames(object):
         self.variables = variables or {}
         self.extension = extension
         self.invalid = invalid or {}
+        # The namespace that the variables are reset to after each name
+        self.initialVariables = self.variables.copy()
         self.newFilename = self._newFilename()
 
     def parseFilenames(self, spec):
@@ -139,7 +141,7 @@ class Filenames(object):
 
     def _newFilename(self):
         """ Generator that generates new filenames """
-        g = self.variables.copy()
+        g = self.initialVariables
 
         # Split filenames into static and wildcard groups
         static = []
